@@ -463,10 +463,12 @@ def indexOfSortedAfter (l : RCL) (key : List Nat) (r : SearchRes) : Out (Option 
       let inBlock := min (l.k - 1) (l.len - b * l.k - 1)
       scanBlock key (b * l.k) inBlock 0 data result
 
-/-- `index_of_sorted` -/
-def indexOfSorted (l : RCL) (key : List Nat) : Out (Option Nat) := do
-  let r ← binarySearchBy (headCmp l key) l.pointers
-  indexOfSortedAfter l key r
+/-- `index_of_sorted`: a key containing NUL cannot be stored (and cannot be compared with the
+NUL-terminated block heads): `if string.contains(&0) { return None; }` -/
+def indexOfSorted (l : RCL) (key : List Nat) : Out (Option Nat) :=
+  if key.contains 0 then .ok none else do
+    let r ← binarySearchBy (headCmp l key) l.pointers
+    indexOfSortedAfter l key r
 
 /-- `IndexedDict::index_of` -/
 def indexOf (l : RCL) (key : List Nat) : Out (Option Nat) :=
